@@ -95,9 +95,25 @@ Definition scalar (s : cstate) (k : string) : Z :=
   match sget s k with Some (x :: _) => x | _ => 0 end.
 
 Definition cpos := list (string * option (list Z)).
-(* DictInterface.extract_position: {key: model_state[key] for key in position_keys} *)
+(* the harness DerivedInterface (c08_kit.py): tracked quantities that are COMPUTED from one chain's state
+     "cs_<k>" cumulative sum over the flattened entries of state[k]
+     "ct_<k>" state[k] * size - sum(state[k])
+   every other key is looked up *)
+Fixpoint cumsum (acc : Z) (l : list Z) : list Z :=
+  match l with [] => [] | x :: r => (acc + x) :: cumsum (acc + x) r end.
+Definition centre (l : list Z) : list Z :=
+  let n := Z.of_nat (List.length l) in
+  let sm := fold_left Z.add l 0 in
+  map (fun x => x * n - sm) l.
+Definition xget (s : cstate) (k : string) : option (list Z) :=
+  let base := substring 3 (String.length k - 3) k in
+  if prefix "cs_" k then option_map (cumsum 0) (sget s base)
+  else if prefix "ct_" k then option_map centre (sget s base)
+  else sget s k.
+(* DictInterface.extract_position: {key: model_state[key] for key in position_keys}
+   (DerivedInterface: the same with the computed keys above) *)
 Definition c_extract (tk : list string) (s : cstate) : cpos :=
-  map (fun k => (k, sget s k)) (nodup string_dec tk).
+  map (fun k => (k, xget s k)) (nodup string_dec tk).
 
 Definition kstate := (Z * Z * Z)%type.        (* last, ntrans, nstart *)
 Fixpoint upd_slot (l : list kstate) (i : nat) (f : kstate -> kstate) : list kstate :=
